@@ -222,12 +222,8 @@ fn gen_value(r: &mut Rng, c: Class) -> PrimitiveValue {
         Class::F64 => PrimitiveValue::F64((0..k).map(|_| if r.chance(1, 4) { f64::from_bits(r.next_u64()) } else { half(r) as f64 / 2.0 }).filter(|x| !x.is_nan()).collect()),
         Class::At => PrimitiveValue::Tags((0..k).map(|_| Tag(r.edgy(16) as u16, r.edgy(16) as u16)).collect()),
         Class::Sq => PrimitiveValue::Empty,
-        Class::Un => match r.below(8) {
+        Class::Un => match r.below(4) {
             0 => PrimitiveValue::Str(gen_text(r, false)),
-            1 => PrimitiveValue::U16((0..k).map(|_| r.edgy(16) as u16).collect()),
-            2 => PrimitiveValue::I64((0..k).map(|_| r.edgy(64) as i64).collect()),
-            3 => PrimitiveValue::U64((0..k).map(|_| r.edgy(64)).collect()),
-            4 => PrimitiveValue::I32((0..k).map(|_| r.edgy(32) as i32).collect()),
             _ => PrimitiveValue::U8(C::from_vec(r.bytes(k * 2))),
         },
     }
@@ -301,6 +297,8 @@ fn main() {
     let sq_tags: Vec<Tag> = POOL.iter().filter(|(t, _)| class_of(*t) == Class::Sq).map(|(t, _)| *t).collect();
     for i in case_indices(&a) {
         let mut r = Rng::for_case(a.seed, i);
+        // one case in twelve: operations whose value type need not suit the attribute's VR
+        let mismatch = r.chance(1, 12);
         let mut obj = gen_obj(&mut r, 0);
         let init = dump(&obj);
         let nops = if a.thorough { r.usize(0, 300) } else { match r.below(8) { 0 => 0, 1 => 1, _ => r.usize(2, 30) } };
@@ -346,6 +344,11 @@ fn main() {
                 VR::UN | VR::OB => Class::Un,
                 _ => Class::Text,
             });
+            let cur_is_seq = matches!(cur.map(|e| e.value()), Some(Value::Sequence(_)) | Some(Value::PixelSequence(_)));
+            let cur_prim_nonempty = matches!(cur.map(|e| e.value()), Some(Value::Primitive(p)) if p.multiplicity() > 0);
+            let cur_bytes = matches!(cur.map(|e| e.value()), Some(Value::Primitive(PrimitiveValue::U8(v))) if !v.is_empty());
+            // the class values must have: that of the element's VR when it exists, else of the dictionary VR
+            let c = if cur.is_some() && !cur_is_seq { cur_class.unwrap_or(c) } else { c };
             let (action, ad) = loop {
                 match r.below(20) {
                     0 => break (AttributeAction::Remove, "remove".to_string()),
@@ -388,19 +391,40 @@ fn main() {
                         let d = format!("repstr {}", hexs(&s));
                         break (AttributeAction::ReplaceStr(s.into()), d);
                     }
-                    12 | 13 if c == Class::Text || c == Class::Uid || c == Class::Un || c == Class::Sq || r.chance(1, 4) => {
+                    12 | 13 => {
+                        // text goes to textual / byte attributes (or bounces off an existing sequence)
+                        let cl = c;
+                        let textual = matches!(cl, Class::Text | Class::Uid | Class::Un) || cur_is_seq;
+                        if !(textual || mismatch) {
+                            continue;
+                        }
                         let s = gen_text(&mut r, c == Class::Uid);
                         let d = format!("pushstr {}", hexs(&s));
                         break (AttributeAction::PushStr(s.into()), d);
                     }
                     14..=17 => {
-                        // numbers go to numeric / unknown attributes, or to existing non-empty text
-                        let numeric = matches!(c, Class::U16 | Class::I16 | Class::U32 | Class::I32 | Class::F32 | Class::F64 | Class::Un | Class::At | Class::Sq);
-                        let numeric_now = cur.is_none() || !matches!(cur_class, Some(Class::Text) | Some(Class::Uid));
-                        if !((numeric && numeric_now) || cur_text) {
+                        // numbers: any kind onto an existing non-empty numeric / byte / text value (cast or
+                        // printed); onto a missing or empty attribute only the kind of its VR
+                        let kind = r.below(6);
+                        let existing_ok = cur_prim_nonempty
+                            && (cur_text || cur_bytes
+                                || matches!(cur_class, Some(Class::U16) | Some(Class::U32) | Some(Class::F32) | Some(Class::F64)));
+                        let fresh_vr = if cur.is_some() && !cur_is_seq { cur.map(|e| e.vr()) } else { dict_vr(tag) };
+                        let fresh_ok = !cur_prim_nonempty && !cur_is_seq
+                            && match fresh_vr {
+                                None => true,
+                                Some(VR::SL) => kind == 0,
+                                Some(VR::UL) => kind == 1,
+                                Some(VR::SS) => kind == 2,
+                                Some(VR::US) => kind == 3,
+                                Some(VR::FL) | Some(VR::OF) => kind == 4,
+                                Some(VR::FD) | Some(VR::OD) => kind == 5,
+                                _ => false,
+                            };
+                        if !(existing_ok || fresh_ok || cur_is_seq || mismatch) {
                             continue;
                         }
-                        match r.below(6) {
+                        match kind {
                             0 => {
                                 let n = small_int(&mut r) as i32;
                                 break (AttributeAction::PushI32(n), format!("pushnum i32 {n}"));
@@ -494,6 +518,6 @@ fn main() {
         for t in &used {
             d.push_str(&format!(" {} {}", tagn(*t), dict_vr(*t).map(|v| v.to_string()).unwrap_or("-")));
         }
-        out.line(&format!("#{} ops {} INIT {} N {}{} WR{}", i, d, init, nops, body, wr));
+        out.line(&format!("#{} ops MODE {} {} INIT {} N {}{} WR{}", i, if mismatch { "mismatch" } else { "typed" }, d, init, nops, body, wr));
     }
 }
